@@ -85,7 +85,8 @@ where
         DI::Word: FromU32,
     {
         let conv: Vec<DI::Word> = ws.iter().map(|v| DI::Word::from_u32(*v)).collect();
-        di.send_pixels(conv.chunks_exact(N).map(|c| arr::<DI::Word, N>(c)))
+        // `filter` hides the exact size hint: the transport may not rely on it
+        di.send_pixels(conv.chunks_exact(N).map(|c| arr::<DI::Word, N>(c)).filter(|_| true))
     }
     fn rep<DI: Interface, const N: usize>(di: &mut DI, ws: &[u32], count: u32) -> Result<(), DI::Error>
     where
